@@ -1,20 +1,25 @@
 import QModel.ResultsDict
 /-! `rdict <lazy 0/1> <inplace 0/1> <ops…>` — the results-dictionary machine with both repairs (`fixed`, `sep`), started
     by `validate_simulation()` (= a `save`) in configuration 0. Ops: `m<k>` move to configuration k, `e` energy request,
-    `f` forces request, `s` save_state, `r` revert_state. Answer: for every `f` op whether the returned forces are those
-    of the current configuration (`1`/`0`), then `ev=<evaluations>`. -/
+    `f` forces request, `s` save_state, `r` revert_state, `v` validate_simulation (a run boundary, repaired code: the
+    remembered results are kept while they still describe the calculator's). Answer: for every `f` op whether the returned
+    forces are those of the current configuration (`1`/`0`), for every `r` op whether the restored `calc.results` carries a
+    forces entry (`K`/`k`), then `ev=<evaluations>`. -/
 namespace RDict
 
 def exF : Nat → Nat := fun k => 3 * k + 10
 
-def parseOp (w : String) : Option Op :=
-  if w = "e" then some .energy else if w = "f" then some .forces else if w = "s" then some .save
-  else if w = "r" then some .revert
-  else if w.startsWith "m" then (w.drop 1).toNat?.map .move else none
+/-- an op of the script: a machine op, or a run boundary -/
+def parseOp (w : String) : Option (Option Op) :=
+  if w = "e" then some (some .energy) else if w = "f" then some (some .forces) else if w = "s" then some (some .save)
+  else if w = "r" then some (some .revert)
+  else if w = "v" then some none
+  else if w.startsWith "m" then (w.drop 1).toNat?.map (fun k => some (.move k)) else none
 
-def runOut (fl : Flags) : List Op → St → List String → St × List String
+def runOut (fl : Flags) : List (Option Op) → St → List String → St × List String
   | [], s, acc => (s, acc.reverse)
-  | op :: ops, s, acc =>
+  | none :: ops, s, acc => runOut fl ops (runStart exF fl true s) acc
+  | some op :: ops, s, acc =>
     let s1 := step exF fl s op
     match op with
     | .forces =>
@@ -22,6 +27,7 @@ def runOut (fl : Flags) : List Op → St → List String → St × List String
         | some d => decide (d.cfg = s1.cur) && decide (d.forces.map (deref s1) = some (exF s1.cur))
         | none => false
       runOut fl ops s1 ((if ok then "1" else "0") :: acc)
+    | .revert => runOut fl ops s1 ((if (s1.cres.bind (·.forces)).isSome then "K" else "k") :: acc)
     | _ => runOut fl ops s1 acc
 
 def handle : List String → String
